@@ -480,7 +480,7 @@ func firstLine(s string) string {
 
 func c33Tier() (maxOrders, drainOrders int) {
 	if os.Getenv("VERIF_TIER") == "thorough" {
-		return 120, 24
+		return 120, 12
 	}
 	return 60, 8
 }
